@@ -25,29 +25,34 @@ def parse_fixed_line(line):
 
 
 def parse_ws_line(line, keep_chain):
-    """Whitespace tokenisation per the documented field list.  The chain id is
-    present iff keep_chain (and the atom has one); an insertion code, if any,
-    is a separate token after the residue number."""
+    """Whitespace tokenisation per the documented field list: the record ends
+    with five numeric fields; between the residue name and them stand an
+    optional chain id (only with keep_chain, and only if the atom has one),
+    the residue number and an optional insertion code."""
     w = line.split()
     rec = {"record": w[0], "serial": int(w[1]), "name": w[2],
            "res_name": w[3]}
-    i = 4
-    try:
-        rec["res_seq"] = int(w[i])
-        rec["chain"] = ""
-        i += 1
-    except ValueError:
-        rec["chain"] = w[i]
-        rec["res_seq"] = int(w[i + 1])
-        i += 2
-    rest = w[i:]
-    if len(rest) == 6:
-        rec["icode"] = rest[0]
-        rest = rest[1:]
+    head, rest = w[4:-5], w[-5:]
+    if len(w) < 10 or not 1 <= len(head) <= 3:
+        raise ValueError(f"expected [chain] number [icode] + 5 numeric "
+                         f"fields, got {w[4:]!r}")
+
+    def is_int(t):
+        try:
+            int(t)
+            return True
+        except ValueError:
+            return False
+
+    if len(head) == 3:
+        rec["chain"], seq, rec["icode"] = head
+    elif len(head) == 2 and keep_chain and is_int(head[1]):
+        rec["chain"], seq, rec["icode"] = head[0], head[1], ""
+    elif len(head) == 2:
+        rec["chain"], seq, rec["icode"] = "", head[0], head[1]
     else:
-        rec["icode"] = ""
-    if len(rest) != 5:
-        raise ValueError(f"expected 5 numeric fields, got {rest!r}")
+        rec["chain"], seq, rec["icode"] = "", head[0], ""
+    rec["res_seq"] = int(seq)
     rec["xs"], rec["ys"], rec["zs"], rec["qs"], rec["rs"] = rest
     rec["x"], rec["y"], rec["z"] = (float(v) for v in rest[:3])
     rec["charge"], rec["radius"] = float(rest[3]), float(rest[4])
